@@ -1,6 +1,7 @@
 SPECIFICATION Spec
 CONSTANTS
   MergeTiming = "eager"
+  DoFeedback = "rerun"
   TmpName = "constant"
   Programs <- ProgramsSmall
 INVARIANTS T01
